@@ -340,3 +340,63 @@ def unused_induction_rule(chk, cid, prog, cfgname, units_prefix=('SRC/',), floor
     if n < floor:
         raise AnalysisBroken('%s: only %d counted loops found (floor %d)' % (cid, n, floor))
     return n
+
+
+def scratch_initialised_rule(chk, cid, prog, cfgname):
+    """Two places where a routine reads memory it obtained uninitialised, so that its result depends on what earlier calls left there:
+    (a) the relaxed-supernode searches accumulate subtree sizes in a scratch array (`descendants[parent] += descendants[j] + 1`) that comes
+        from malloc or from the caller's work array: a loop that zeroes descendants[0..n) must precede the accumulation;
+    (b) get_colamd hands its local `knobs[]` to colamd(), which reads the dense-row / dense-column thresholds from it: the array must first
+        go through colamd_set_defaults().
+    With residue in either, the supernode partition resp. the ordering (both valid, so every residual test passes) changes with the history
+    of the process."""
+    chk.clause(cid, 'scratch that is read is initialised first (descendants[] of the relaxed-supernode searches, knobs[] of COLAMD)')
+    n = 0
+    for fname in ('relax_snode', 'heap_relax_snode', 'ilu_relax_snode', 'ilu_heap_relax_snode'):
+        f = prog.func(fname)
+        if f is None:
+            raise AnalysisBroken('%s not found' % fname)
+        chk.saw(unit=f.unit, func=f.unit + ':' + f.name)
+        did = {nm: i for (nm, i, t) in f.params}.get('descendants')
+        if did is None:
+            raise AnalysisBroken('%s: parameter descendants not found' % fname)
+        acc = [x for x in f.body.walk() if x.k == 'Assign' and x.a['op'] == '+=' and strip(x.c[0]).k == 'Index' and root_ref(x.c[0]) is not None
+               and root_ref(x.c[0]).a.get('id') == did]
+        zero = []
+        for lp in f.body.walk():
+            if lp.k == 'For':
+                for x in lp.c[3].walk() if lp.c[3].k != 'Assign' else [lp.c[3]]:
+                    if x.k == 'Assign' and x.a['op'] == '=' and strip(x.c[0]).k == 'Index' and root_ref(x.c[0]) is not None and root_ref(x.c[0]).a.get('id') == did \
+                            and const_value(x.c[1]) == 0:
+                        zero.append((lp, x))
+        if not acc:
+            raise AnalysisBroken('%s: accumulation into descendants[] not found' % fname)
+        n += 1
+        inst = '%s:descendants-zeroed-before-accumulation' % fname
+        if any(lp.line <= acc[0].line for (lp, x) in zero):
+            chk.ok(cid, inst, sample='zeroing loop at line %d, first accumulation at line %d' % (min(lp.line for (lp, x) in zero), acc[0].line))
+        else:
+            chk.violate(cid, inst, loc(f, acc[0]), fname,
+                        '`%s` accumulates into descendants[], but no loop zeroes the array first: the subtree sizes start from whatever the memory held (recycled heap, '
+                        'the work array of the caller), so the relaxed supernodes - and with them L, U and the rounding of X - depend on earlier calls' % pretty(acc[0])[:50],
+                        cfgname=cfgname)
+    f = next((g for g in prog.all_funcs() if g.name == 'get_colamd'), None)
+    if f is None:
+        raise AnalysisBroken('get_colamd not found')
+    chk.saw(unit=f.unit, func=f.unit + ':' + f.name)
+    use = [x for x in f.body.walk() if x.k == 'Call' and (callee_name(x) or '').lower() in ('colamd', 'colamd_l') ]
+    init = [x for x in f.body.walk() if x.k == 'Call' and 'set_defaults' in (callee_name(x) or '').lower()]
+    if not use:
+        raise AnalysisBroken('get_colamd: call of colamd not found')
+    n += 1
+    inst = 'get_colamd:knobs-go-through-set_defaults'
+    kn = [strip(a) for a in use[0].c[1:] if strip(a).k == 'Ref' and 'knobs' in (strip(a).a.get('name') or '')]
+    okk = bool(kn) and any(any(strip(a).k == 'Ref' and strip(a).a.get('id') == kn[0].a.get('id') for a in c.c[1:]) and c.line <= use[0].line for c in init)
+    if okk:
+        chk.ok(cid, inst, sample='%s(%s) before %s(..)' % (callee_name(init[0]), kn[0].a.get('name'), callee_name(use[0])))
+    else:
+        chk.violate(cid, inst, loc(f, use[0]), 'get_colamd',
+                    'colamd() reads its thresholds from `%s`, a local array that was not passed through colamd_set_defaults() first: dense-row / dense-column limits and '
+                    'the aggressive-absorption flag are whatever the stack held, and the ordering changes with the call history' % (kn[0].a.get('name') if kn else 'knobs'),
+                    cfgname=cfgname)
+    return n
